@@ -126,6 +126,7 @@ class Translator:
         self.notes = []
         self.lambda_counter = {}
         self.make_shared_emitted = set()
+        self.local_macros = {}
         self.fn_src = {}
 
     # ------------------------------------------------------------------ indexing
@@ -959,7 +960,7 @@ class Translator:
             self.make_shared_emitted.add(ms)
             pd = ', '.join([self.ctype(self.qt(p)).decl(p['name']) for p in ps] + self.ghost_decls())
             pa = ', '.join([p['name'] for p in ps] + self.ghost_args())
-            text = (f'{rec.c} *{ms}({pd})\nCONTRACT({ms})\n{{\n  {rec.c} *__n = {rec.c}_alloc({", ".join(self.ghost_args())});\n'
+            text = (f'{rec.c} *{ms}({pd})\n#ifdef USE_CONTRACT_{ms}\nCONTRACT({ms})\n#endif\n{{\n  {rec.c} *__n = {rec.c}_alloc({", ".join(self.ghost_args())});\n'
                     f'  if (EXC_PENDING) return NULL;\n  {cn}(__n, {pa});\n  return __n;\n}}')
             self.funcs.append((ms, f'{rec.c} *{ms}({pd})', text, 'std::make_shared = trusted allocation + extracted constructor'))
             self.externs[f'{rec.c}_alloc'] = f'{rec.c} *{rec.c}_alloc({", ".join(self.ghost_decls()) or "void"})'
@@ -1433,10 +1434,12 @@ class Translator:
             pcx.emit('return 0;')
             pproto = f'int {key}_{part}({", ".join(params)})'
             pcx.lines = self.add_reach(pcx.lines, f'{key}_{part}')
-            self.funcs.append((f'{key}_{part}', pproto, pproto + f'\nCONTRACT({key}_{part})\n{{\n' + '\n'.join(pcx.lines) + '\n}', f'{part} of split loop {key}'))
+            self.funcs.append((f'{key}_{part}', pproto, pproto + f'\n#ifdef USE_CONTRACT_{key}_{part}\nCONTRACT({key}_{part})\n#endif\n{{\n' + '\n'.join(pcx.lines) + '\n}', f'{part} of split loop {key}'))
+        locs = [re.sub(r'^.*\*', '', p_).strip() for p_ in params if '*' in p_ and not p_.strip().endswith('*self') and p_.split('*')[-1].strip() not in self.ghost_args()]
+        self.local_macros[key] = locs
         proto = f'int {key}({", ".join(params)})'
         bcx.lines = self.add_reach(bcx.lines, key)
-        text = proto + f'\nCONTRACT({key})\n{{\n' + '\n'.join(bcx.lines) + '\n}'
+        text = proto + f'\n#ifdef USE_CONTRACT_{key}\nCONTRACT({key})\n#endif\n{{\n' + '\n'.join(bcx.lines) + '\n}'
         self.funcs.append((key, proto, text, f'one iteration of loop {key} (split form)'))
         self.loop_keys += [k2 for k2 in []]
 
@@ -1496,7 +1499,7 @@ class Translator:
         rts = cx.ret.decl('').strip()
         proto = f'{rts} {cn}({", ".join(params) or "void"})'
         cx.lines = self.add_reach(cx.lines, cn)
-        text = proto + f'\nCONTRACT({cn})\n{{\n' + '\n'.join(cx.lines) + '\n}'
+        text = proto + f'\n#ifdef USE_CONTRACT_{cn}\nCONTRACT({cn})\n#endif\n{{\n' + '\n'.join(cx.lines) + '\n}'
         loc = decl.get('loc', {})
         self.funcs.append((cn, proto, text, f'{decl.get("name")} @ line {loc.get("line", loc.get("expansionLoc", {}).get("line", "?"))}'))
 
@@ -1650,8 +1653,12 @@ class Translator:
             o.append(f'#ifndef CONTRACT_{cn}\n#define CONTRACT_{cn}\n#endif')
         for k in self.loop_keys:
             o.append(f'#ifndef LOOP_CONTRACT_{k}\n#define LOOP_CONTRACT_{k}\n#endif')
+        for k, locs in self.local_macros.items():
+            # loop-carried locals of a split loop, as the pieces receive them: contracts can stay independent of their names
+            o.append(f'#define LOCALS_{k} ' + ', '.join('*' + l for l in locs))
+            o.append(f'#define FRESH_LOCALS_{k} (' + ' && '.join(f'__CPROVER_is_fresh({l}, sizeof(*{l}))' for l in locs) + ')')
         for cn, proto in sorted(self.externs.items()):
-            o.append(f'{proto}\nCONTRACT({cn});')
+            o.append(f'{proto}\n#ifdef USE_CONTRACT_{cn}\nCONTRACT({cn})\n#endif\n;')
         for cn, proto, text, src in self.funcs:
             o.append(f'{proto};')
         for cn, proto, text, src in self.funcs:
